@@ -27,9 +27,9 @@ def check_priority(ctx, R="C13.priority"):
         if isinstance(n, ast.Assign) and len(n.targets) == 1 and isinstance(n.targets[0], ast.Name):
             env[n.targets[0].id] = n.value
 
-    def reversal(name):
-        """0 = source order, 1 = reversed; None = unknown"""
-        v = env.get(name)
+    def reversal(e):
+        """0 = source order, 1 = reversed; None = unknown (e: the argument expression, a local or the tuple itself)"""
+        v = env.get(e.id) if isinstance(e, ast.Name) else e
         if not (isinstance(v, ast.Call) and dotted(v.func) == "ast.Tuple" and v.args):
             return None, None
         comp = v.args[0]
@@ -50,10 +50,10 @@ def check_priority(ctx, R="C13.priority"):
     alist = emitted[0].args[1]
     if isinstance(alist, ast.Name):
         alist = env.get(alist.id)
-    if not (isinstance(alist, ast.List) and len(alist.elts) == 5 and all(isinstance(e, ast.Name) for e in alist.elts[3:])):
+    if not (isinstance(alist, ast.List) and len(alist.elts) == 5):
         raise AnalysisError("shape not recognised: argument list of the emitted runTryInterrupt call")
-    rc, csrc = reversal(alist.elts[3].id)
-    rh, hsrc = reversal(alist.elts[4].id)
+    rc, csrc = reversal(alist.elts[3])
+    rh, hsrc = reversal(alist.elts[4])
     if rc is None or rh is None:
         raise AnalysisError("shape not recognised: conditions/handlers tuples of visit_TryInterrupt")
     # the name lists are filled in source order inside one loop over the handlers
